@@ -108,7 +108,8 @@ Definition import_ctx (c : ctx) (g : env) : res ctx :=
 
 (* ------------------------------------------------------------------ syntax *)
 Inductive target := ByName (n : tname) | ByObject (n : tname).   (* a Template object passed in a variable *)
-Inductive skind := KFor | KWith | KMacro.
+Inductive skind := KFor | KWith | KMacro | KBlock | KBlockS.   (* for / with / private macro called in place /
+   a block rendered where it is defined, unscoped or `scoped` (runs with Context.derived(locals)) *)
 Inductive expr := EConst (s : str) | EVar (x : name).
 Inductive stmt :=
 | SOut (s : str)
@@ -257,14 +258,20 @@ Section Run.
                 end
             end
         | SScope k v vals body =>
-            (* a for loop, a with block, or a private macro called in place: the body runs in an
-               inner frame; what it binds stays local *)
+            (* a for loop, a with block, a private macro called in place: the body runs in an inner
+               frame; what it binds stays local.  A block runs as its own function: the enclosing
+               locals are not visible, except that a scoped block gets Context.derived(locals), which
+               (since the repair recorded in known_findings.d/C05.json) keeps the globals mapping *)
             fold_left (fun acc val =>
                          match acc with
                          | Err e => Err e
                          | Ok s1 =>
-                             match run_body fu false {| s_out := s_out s1; s_ctx := s_ctx s1;
-                                                        s_loc := (v, VStr val) :: L |} body with
+                             match run_body fu false
+                                     {| s_out := s_out s1;
+                                        s_ctx := match k with
+                                                 | KBlockS => p_include P (s_ctx s1) L (c_globals (s_ctx s1))
+                                                 | _ => s_ctx s1 end;
+                                        s_loc := match k with KBlock | KBlockS => [] | _ => (v, VStr val) :: L end |} body with
                              | Ok s2 => Ok {| s_out := s_out s2; s_ctx := s_ctx s1; s_loc := L |}
                              | Err e => Err e
                              end
